@@ -243,7 +243,7 @@ def p_moveaxis(rng: Any) -> tuple[str, list[Any]]:
     return 'moveaxis/M@MT', [m, mt]
 
 
-N_NEARMISS = 9
+N_NEARMISS = 10
 
 
 def p_nearmiss(rng: Any, form: int | None = None) -> tuple[str, list[Any]]:
@@ -324,6 +324,17 @@ def p_nearmiss(rng: Any, form: int | None = None) -> tuple[str, list[Any]]:
         p = IndexOperator(ia, in_structure=s, out_structure=gen.index_out_structure(s, ia))
         q = IndexOperator(ib, in_structure=s, out_structure=gen.index_out_structure(s, ib))
         return ('nearmiss/index@otherindex.T-static', [p, q.T]) if rng.integers(2) else ('nearmiss/index.T@otherindex-static', [q.T, p])
+    if form == 9 and s.shape[0] >= 2:
+        # slice-only indexing that keeps every shape but is NOT the identity: a reversal (negative step over a whole axis),
+        # alone and next to a diagonal operator
+        n0 = s.shape[0]
+        sl = pick(rng, [slice(None, None, -1), slice(n0 - 1, None, -1), slice(-1, None, -1)])
+        idx9 = (sl,) if rng.integers(2) or len(s.shape) < 2 else (Ellipsis, slice(None, None, -1))
+        rev = IndexOperator(idx9, in_structure=s, out_structure=gen.index_out_structure(s, idx9))
+        d = gen.a_diagonal(rng, s)
+        if d is None or rng.integers(2):
+            return 'nearmiss/index-reversal', [rev]
+        return 'nearmiss/index-reversal@diagonal', [d, rev]
     # lazy inverse next to an equal but different operator
     band = jnp.asarray([4.0, 1.0], dtype=s.dtype)
     x1 = SymmetricBandToeplitzOperator(band, s, method='dense')
